@@ -175,7 +175,15 @@ class Extractor:
         if k == "tuple":
             return ("tuple",) + tuple(self.ev(x, env, depth + 1) for x in n["es"])
         if k == "ctor" and callee(n).endswith(("Result::Ok", "Option::Some")):
+            if getattr(self, "_keep_some", 0) and callee(n).endswith("Option::Some"):
+                keep, self._keep_some = self._keep_some, 0
+                try:
+                    return ("some", self.ev(n["args"][0], env, depth + 1))
+                finally:
+                    self._keep_some = keep
             return self.ev(n["args"][0], env, depth + 1)
+        if k == "def" and (n.get("path") or "").endswith("Option::None") and getattr(self, "_keep_some", 0):
+            return ("none",)
         if k in ("mcall", "call"):
             pt = self.passthrough(n)
             if pt is not None:
@@ -233,8 +241,50 @@ class Extractor:
             raise Opaque(n, "block without value")
         if k == "closure":
             raise Opaque(n, "closure")
+        if k == "if" and self.spec is not None and peel(n["cond"]).get("k") == "letexpr":
+            # `if let Some(x) = lookup(op) { A } else { B }` with a lookup that is decided by the specialised subject
+            c_ = peel(n["cond"])
+            pt = c_["pat"]
+            while pt.get("k") in ("pref", "pderef"):
+                pt = pt["pat"]
+            if pt.get("k") == "pvariant" and pt["path"].endswith("Option::Some") and len(pt["subs"]) == 1:
+                keep = getattr(self, "_keep_some", 0)
+                self._keep_some = 1
+                try:
+                    ov = self.ev(c_["init"], dict(env), depth + 1)
+                except Opaque:
+                    ov = None
+                finally:
+                    self._keep_some = keep
+                if isinstance(ov, tuple) and ov and ov[0] == "some":
+                    env2 = dict(env)
+                    for _, i_ in pat_bindings(pt["subs"][0]):
+                        env2[i_] = ov[1]
+                    return self.ev(n["then"], env2, depth + 1)
+                if ov == ("none",) and "else" in n:
+                    return self.ev(n["else"], env, depth + 1)
         if k == "match" and self.spec is not None:
-            v = self.spec(n["scrut"])
+            v = None
+            sc0 = peel(n["scrut"])
+            bound = False
+            if sc0.get("k") == "local" and sc0["id"] in env:
+                # a local that was bound to a literal on this path (payload of a decided lookup, parameter of an inlined helper) wins over the subject
+                try:
+                    ev_ = self.ev(sc0, env, depth + 1)
+                except Opaque:
+                    ev_ = None
+                if isinstance(ev_, tuple) and len(ev_) == 2 and ev_[0] == "lit" and isinstance(ev_[1], (str, int)):
+                    v, bound = ev_[1], True
+            if v is None and not bound:
+                v = self.spec(n["scrut"])
+            if v is None:
+                # a scrutinee that evaluates to a literal (e.g. the base operator found by a lookup on the specialised token)
+                try:
+                    sv = self.ev(n["scrut"], dict(env), depth + 1)
+                except Opaque:
+                    sv = None
+                if isinstance(sv, tuple) and len(sv) == 2 and sv[0] == "lit" and isinstance(sv[1], (str, int)):
+                    v = sv[1]
             if v is not None:
                 for arm in n["arms"]:
                     for alt in pat_alts(arm["pat"]):
